@@ -20,6 +20,7 @@ import (
 	"github.com/cloudflare/circl/group"
 	"github.com/cloudflare/circl/kem/schemes"
 	"github.com/cloudflare/circl/oprf"
+	"github.com/cloudflare/circl/sign"
 	"github.com/cloudflare/circl/sign/bls"
 	"github.com/cloudflare/circl/sign/ed25519"
 	"github.com/cloudflare/circl/sign/ed448"
@@ -88,6 +89,18 @@ func main() {
 				c[0] = valid[i%len(valid)][0]
 			}
 			f.classes["random"] = append(f.classes["random"], c)
+		}
+		// an encoding followed by further bytes is not an encoding (decoders that take a slice; the raw bls12381 SetBytes functions are
+		// covered by their own 96- / 192-byte classes)
+		if map[string]bool{"sec1-p256": true, "sec1-p384": true, "sec1-p521": true, "ristretto255": true, "bls-pk": true, "oprf-pk": true, "mlkem-ek": true,
+			"eddsa-scheme-key": true}[f.fmtName] {
+			for i, v := range valid {
+				if i >= 6 {
+					break
+				}
+				f.classes["trailing"] = append(f.classes["trailing"], append(append([]byte{}, v...), 0xaa), append(append([]byte{}, v...), v[:len(v)/2]...),
+					append(append([]byte{}, v...), v...))
+			}
 		}
 		for class, inputs := range f.classes {
 			ln := line{Ev: "class", Fmt: f.fmtName, Impl: f.impl, Class: class, Shapes: []string{}}
@@ -257,6 +270,11 @@ func sec1Families(rng *rand.Rand) []family {
 				}
 			}
 		}
+		for _, b := range cl["valid"] { // the uncompressed form is an encoding of the point but not of an OPRF public key (compressed, RFC 9497)
+			if len(b) == 1+2*n {
+				cl2["bad-flags"] = append(cl2["bad-flags"], b)
+			}
+		}
 		fs = append(fs, family{"oprf-pk", "oprf.PublicKey " + gi.name[5:], func(b []byte) (bool, bool, bool) {
 			var pk oprf.PublicKey
 			if pk.UnmarshalBinary(su, b) != nil {
@@ -382,6 +400,11 @@ func blsFamilies(rng *rand.Rand) []family {
 			}
 		}
 		clk["bad-flags"] = append(clk["bad-flags"], infC) // identity key: Validate must refuse
+		for _, b := range cl["valid"] {                   // the uncompressed form of a point is not the encoding of a key
+			if len(b) == 96 && b[0]&0x40 == 0 {
+				clk["bad-flags"] = append(clk["bad-flags"], b)
+			}
+		}
 		fs = append(fs, family{"bls-pk", "bls.PublicKey[G1]", func(b []byte) (bool, bool, bool) {
 			var pk bls.PublicKey[bls.G1]
 			if pk.UnmarshalBinary(b) != nil || !pk.Validate() {
@@ -596,6 +619,23 @@ func edFamilies(rng *rand.Rand) []family {
 				copy(sig2, k) // R = A
 				clv[cls] = append(clv[cls], append(append([]byte{}, k...), sig2...))
 			}
+		}
+		for _, sch := range []sign.Scheme{ed25519.Scheme(), ed448.Scheme()} {
+			sch := sch
+			cls := map[string][][]byte{}
+			for i := 0; i < 4; i++ {
+				pk, _ := sch.DeriveKey(vlib.Bytes(rng, sch.SeedSize()))
+				b, _ := pk.MarshalBinary()
+				cls["valid"] = append(cls["valid"], b)
+			}
+			fs = append(fs, family{"eddsa-scheme-key", sch.Name() + " Scheme.UnmarshalBinaryPublicKey", func(b []byte) (bool, bool, bool) {
+				pk, err := sch.UnmarshalBinaryPublicKey(b)
+				if err != nil {
+					return false, false, false
+				}
+				re, _ := pk.MarshalBinary()
+				return true, bytes.Equal(re, b), true
+			}, cls})
 		}
 		fs = append(fs, family{"ed25519-key", "ed25519.Verify(public key)", func(b []byte) (bool, bool, bool) {
 			if !ed25519.Verify(ed25519.PublicKey(b[:32]), msg, b[32:]) {
